@@ -43,6 +43,7 @@ import gevent
 from gevent.event import Event
 
 import slimta.diskstorage as D
+import slimta.queue as Q
 from slimta.queue import Queue, QueueStorage
 from slimta.relay import Relay
 from slimta.envelope import Envelope
@@ -55,7 +56,8 @@ LEVEL_TEXT = ('Real DiskStorage executes generated operation histories (1-3 mess
               'sequential and one-greenlet-per-message overlapping); the directory tree is captured before and '
               'after EVERY file-system effect (temp-file creation, each AIO chunk, rename, unlink) and at every '
               'operation boundary; every distinct (tree, acknowledged-state) pair is recovered by a fresh '
-              'DiskStorage and a fresh real Queue and judged against the fold of the acknowledged operations. '
+              'DiskStorage and a fresh real Queue (default pools on every state; store_pool 1 and 2, relay_pool 1, backlog-due-after-scan on every '
+              'distinct env+meta content) and judged against the fold of the acknowledged operations. '
               'A sample of crash points is cross-checked with a really killed child process. Held = no '
               'enumerated crash state of the generated histories lost or corrupted an acknowledged message; '
               'not a proof for other histories, and silent about power loss.')
@@ -68,7 +70,8 @@ TECHNIQUE = ('runtime monitoring with exhaustive crash-point enumeration: snapsh
 RULE = ('case = one history: 1-3 messages x 4-12 operations from {write, increment_attempts, set_timestamp, '
         'set_recipients_delivered (once per message, proper subset of indexes), remove}, chunk size in '
         '{16,64,256}, mode sequential | overlapping greenlets (one per message, seeded yields), optional forced '
-        'uuid collision with an existing id; every capture point of the history is one crash state, every '
+        'uuid collision with an existing id, write/retry timestamps all equal | ascending | descending per message '
+        '(all in the past, so (timestamp, id) order of the restart backlog varies); every capture point of the history is one crash state, every '
         'distinct (tree bytes, expectation) is one evaluation (recovery). non-trivial & distinct = distinct '
         '(mode, operation, effect kind, target dir, before/after, ordinal of the effect inside the operation, '
         'number of acknowledged live messages) whose crash point lies strictly inside a multi-effect operation '
@@ -87,6 +90,12 @@ ASSUMPTIONS = [
     'a message whose write() had not returned, and a message whose remove() was in flight, need not be recoverable; '
     'messages whose remove() returned are not required to be absent (repeated delivery is allowed)',
     'timestamps are written in the past so a fresh Queue finds everything due at once (no virtual clock needed)',
+    'fresh-Queue configurations: (store_pool, relay_pool) in {(None,None),(1,None),(2,None)} with a relay that '
+    'records and holds the attempt, (None,1) with a relay that reports delivery, and store_pool None/1 with the '
+    'whole backlog coming due right after the start-up scan (harness clock substituted for slimta.queue.time, '
+    'scheduler woken through Queue.wake); both pools bounded is not '
+    'run (known pool cycle, another property); a greenlet crash inside the fresh Queue is recorded in the '
+    'witness and is a violation only through the attempts it prevents',
 ]
 REQUIRED_HITS = ['recovery-judged', 'queue-attempts-judged', 'real-kill-compared']
 SHARDS = {'quick': 8, 'thorough': 16}
@@ -134,6 +143,7 @@ def make_case(rnd, h, tier):
                      'body': body, 'subject': 'history %d message %d' % (h, i)})
     ops, written, gone, marked, nxt = [], [], set(), set(), 0
     target = rnd.randint(4, 12)
+    tscheme = rnd.choice(['equal', 'equal', 'asc', 'desc'])
     while len(ops) < target:
         live = [m for m in written if m not in gone]
         ch = []
@@ -148,7 +158,7 @@ def make_case(rnd, h, tier):
         kind = rnd.choice(ch)
         y = rnd.choice([0, 0, 1, 2, 5])
         if kind == 'write':
-            ops.append([nxt, 'write', 1.0 + nxt, y])
+            ops.append([nxt, 'write', {'equal': 1.0, 'asc': 1.0 + nxt, 'desc': 9.0 - nxt}[tscheme], y])
             written.append(nxt)
             nxt += 1
             continue
@@ -156,7 +166,8 @@ def make_case(rnd, h, tier):
         if kind == 'inc':
             ops.append([m, 'inc', None, y])
         elif kind == 'ts':
-            ops.append([m, 'ts', 2.0 + len(ops) + rnd.choice([0, 0.5]), y])
+            # past timestamps, equal to / below / above the other messages' ones
+            ops.append([m, 'ts', rnd.choice([0.5, 1.0, 5.0, 2.0 + len(ops), 20.5 + len(ops)]), y])
         elif kind == 'mark':
             if m in marked:
                 continue
@@ -497,19 +508,51 @@ def run_history(case, root, tracer, model, problems):
 # --------------------------------------------------------------------------- recovery oracle
 
 class RecRelay(Relay):
-    """Records every attempt a fresh Queue makes and then holds it (no further store traffic)."""
+    """Records every attempt a fresh Queue makes; then either holds it (no further store
+    traffic) or reports it delivered (the Queue then removes the message from the copy)."""
 
-    def __init__(self):
+    def __init__(self, deliver=False):
         super(RecRelay, self).__init__()
         self.attempts = []
         self.greenlets = []
         self.hold = Event()
+        self.deliver = deliver
 
     def attempt(self, envelope, attempts):
         self.attempts.append({'sender': envelope.sender, 'rcpts': list(envelope.recipients),
                               'content': flat(envelope), 'attempts': attempts})
+        if self.deliver:
+            return None
         self.greenlets.append(gevent.getcurrent())
         self.hold.wait()
+
+
+# Configurations of the fresh Queue. 'default' runs on every judged crash state, the others on every
+# distinct (env+meta content, expectation).  A bounded store pool makes _load_all finish before the
+# scheduler's first pass, so the whole backlog is dispatched as ONE ready batch in (timestamp, id) order.
+# (relay_pool=1 only with a delivering relay and an unbounded store pool: a holding relay would starve
+# it by construction, and both pools bounded is the known pool cycle of another property.)
+# 'late' = the backlog comes due only after the start-up scan has finished: slimta.queue.time is
+# substituted by a harness clock that stands before every stored timestamp while the Queue loads and
+# is then moved past all of them (the scheduler is woken through its own `wake` event, exactly what the
+# expiry of its timed wait does).  The whole backlog is then ONE ready batch in (timestamp, id) order --
+# the restart of a queue whose retry times lie shortly ahead.
+QUEUE_CONFIGS = [
+    ('default', {}, False, False),
+    ('store_pool=1', {'store_pool': 1}, False, False),
+    ('store_pool=2', {'store_pool': 2}, False, False),
+    ('relay_pool=1', {'relay_pool': 1}, True, False),
+    ('due-after-scan', {}, False, True),
+    ('due-after-scan,store_pool=1', {'store_pool': 1}, False, True),
+]
+
+
+class HarnessClock(object):
+    def __init__(self, now):
+        self.now = now
+
+    def time(self):
+        return self.now
 
 
 class ProbeStore(QueueStorage):
@@ -609,7 +652,93 @@ def tree_class(tree):
     return '+'.join(sorted(a)) or 'clean-tree'
 
 
-def recover(tree, expect, case, R, where):
+def queue_phase(paths, expect, msgs, need, contents, kw, deliver, late, R):
+    """One fresh real Queue (given pool configuration) over a fresh DiskStorage on `paths`.
+    Returns [(clause, m, detail)] or None when the watchdog fired."""
+    out = []
+    probe = ProbeStore(D.DiskStorage(*paths))
+    relay = RecRelay(deliver)
+    q = Queue(probe, relay, **kw)
+    ncr = len(_crashes)
+    want = set(msgs[m]['sender'] for m in need)
+
+    clock = HarnessClock(0.0)
+
+    def phase2():
+        q.start()
+        if late:
+            # nothing is due yet: let the start-up scan finish, then make everything due at once
+            stable = 0
+            while stable < 10:
+                gevent.sleep(0.0005)
+                gevent.idle()
+                stable = stable + 1 if (probe.load_done and probe.inprogress == 0) else 0
+            clock.now = 1e9
+            q.wake.set()
+        stable = 0
+        while stable < 25:
+            gevent.sleep(0.0005)
+            gevent.idle()
+            if probe.load_done and probe.inprogress == 0:
+                if want <= set(a['sender'] for a in relay.attempts):
+                    return
+                stable += 1
+            else:
+                stable = 0
+
+    def drain():
+        # a delivering relay makes the Queue remove messages: let those calls finish
+        n = 0
+        while n < 5:
+            gevent.sleep(0.0005)
+            gevent.idle()
+            n = n + 1 if probe.inprogress == 0 else 0
+    saved_time = Q.time
+    if late:
+        Q.time = clock
+    try:
+        w, _ = core.watchdog_call(phase2, 30)
+        if w == 'ok' and deliver:
+            w, _ = core.watchdog_call(drain, 30)
+    finally:
+        q.kill()
+        gevent.killall(relay.greenlets)
+        Q.time = saved_time
+    if w != 'ok':
+        R.inconclusive('watchdog: fresh Queue %r did not become quiescent in 30 s' % (kw,))
+        return None
+    R.hit('queue-attempts-judged')
+    crashes = _crashes[ncr:]
+    side = {'queue_kwargs': kw, 'store_errors': probe.errors[:4], 'greenlet_crashes': crashes[:4]}
+    if crashes:
+        R.count('fresh-queue-greenlet-crashes', len(crashes))
+    for m in need:
+        st = expect[m]
+        atts, tss, rcs = allowed(msgs[m], st)
+        mine = [a for a in relay.attempts if a['sender'] == msgs[m]['sender']]
+        if not mine:
+            out.append(('queue-not-attempted', m,
+                        dict(side, attempted=[a['sender'] for a in relay.attempts])))
+            continue
+        for a in mine:
+            bad = []
+            if a['rcpts'] not in rcs:
+                bad.append('recipients')
+            if a['attempts'] not in atts:
+                bad.append('attempts')
+            if a['content'] != contents[m]:
+                bad.append('content')
+            if bad:
+                out.append(('queue-attempt-wrong-' + '+'.join(bad), m,
+                            dict(side, got_rcpts=a['rcpts'], allowed_rcpts=rcs,
+                                 got_attempts=a['attempts'], allowed_attempts=sorted(atts))))
+                break
+        if len(mine) > 1:
+            R.count('message-attempted-more-than-once-by-fresh-queue')
+    return out
+
+
+def recover(tree, expect, case, R, where, all_configs=True):
     """Run the recovery oracle on one crash state. Returns a list of
     (clause, message-index-or-None, detail)."""
     out = []
@@ -673,58 +802,25 @@ def recover(tree, expect, case, R, where):
                 out.append(('timestamp-wrong', m, {'got': ts, 'allowed': sorted(tss)}))
 
         # ---- phase 2: a fresh real Queue over a fresh DiskStorage resumes retrying
-        probe = ProbeStore(D.DiskStorage(*paths))
-        relay = RecRelay()
-        q = Queue(probe, relay)
-        ncr = len(_crashes)
-        want = set(msgs[m]['sender'] for m in need)
-
-        def phase2():
-            q.start()
-            stable = 0
-            while stable < 25:
-                gevent.sleep(0.0005)
-                gevent.idle()
-                if probe.load_done and probe.inprogress == 0:
-                    if want <= set(a['sender'] for a in relay.attempts):
-                        return
-                    stable += 1
-                else:
-                    stable = 0
-        try:
-            w, _ = core.watchdog_call(phase2, 30)
-        finally:
-            q.kill()
-            gevent.killall(relay.greenlets)
-        if w != 'ok':
-            R.inconclusive('watchdog: fresh Queue did not become quiescent in 30 s')
-            return out
-        R.hit('queue-attempts-judged')
-        side = {'store_errors': probe.errors[:4], 'greenlet_crashes': _crashes[ncr:][:4]}
-        if _crashes[ncr:]:
-            R.count('fresh-queue-greenlet-crashes', len(_crashes) - ncr)
-        for m in need:
-            st = expect[m]
-            atts, tss, rcs = allowed(msgs[m], st)
-            mine = [a for a in relay.attempts if a['sender'] == msgs[m]['sender']]
-            if not mine:
-                out.append(('queue-not-attempted', m, dict(side, attempted=[a['sender'] for a in relay.attempts])))
+        failed = {}           # (clause, m) -> [config names], first detail
+        for name, kw, deliver, late in (QUEUE_CONFIGS if all_configs else QUEUE_CONFIGS[:1]):
+            if name == 'default':
+                croot = root
+            else:
+                croot = os.path.join(base, 'q-' + name.replace('=', '').replace(',', '-'))
+                write_tree(tree, croot)
+            res = queue_phase([os.path.join(croot, d) for d in DIRS], expect, msgs, need, contents,
+                              kw, deliver, late, R)
+            if res is None:
                 continue
-            for a in mine:
-                bad = []
-                if a['rcpts'] not in rcs:
-                    bad.append('recipients')
-                if a['attempts'] not in atts:
-                    bad.append('attempts')
-                if a['content'] != contents[m]:
-                    bad.append('content')
-                if bad:
-                    out.append(('queue-attempt-wrong-' + '+'.join(bad), m,
-                                dict(side, got_rcpts=a['rcpts'], allowed_rcpts=rcs,
-                                     got_attempts=a['attempts'], allowed_attempts=sorted(atts))))
-                    break
-            if len(mine) > 1:
-                R.count('message-attempted-more-than-once-by-fresh-queue')
+            R.count('fresh-queue-runs[%s]' % name)
+            for clause, m, detail in res:
+                e = failed.setdefault((clause, m), [[], detail])
+                e[0].append(name)
+        for (clause, m), (names, detail) in sorted(failed.items(), key=repr):
+            out.append((clause, m, dict(detail, queue_configs_failing=names,
+                                        queue_configs_run=[c[0] for c in QUEUE_CONFIGS] if all_configs
+                                        else ['default'])))
         return out
     finally:
         shutil.rmtree(base, ignore_errors=True)
@@ -780,7 +876,15 @@ def report(R, case, s, found, origin):
                 kinds = sorted(set(st['inflight'][0] for st in expect if st['inflight']))
                 situation = ('victim-idle-during-' + '+'.join(kinds) + '-of-other-message') if kinds \
                     else 'no-op-in-flight'
-        if clause in CLAUSES or clause.startswith('queue-attempt-wrong-'):
+        failing = detail.get('queue_configs_failing') if isinstance(detail, dict) else None
+        if failing and (clause in CLAUSES or clause.startswith('queue-attempt-wrong-')):
+            # which Queue configurations lose it: the default one (then any), or only bounded pools
+            cls = sorted(set('backlog-due-together' if n.startswith('due-after-scan') else
+                             'bounded-store-pool' if n.startswith('store_pool') else
+                             'bounded-relay-pool' if n.startswith('relay_pool') else n for n in failing))
+            cfg = 'any-queue-config' if 'default' in failing else 'only-' + '+'.join(cls)
+            mech = '%s/%s/%s/%s' % (clause, cfg, situation, dc)
+        elif clause in CLAUSES or clause.startswith('queue-attempt-wrong-'):
             mech = '%s/%s/%s' % (clause, situation, dc)
         else:
             mech = 'unclassified/%s' % clause
@@ -824,7 +928,7 @@ def _run_case(case, R, where):
     snaps = tracer.snaps
     R.count('snapshots', len(snaps))
 
-    seen = set()
+    seen, seen2 = set(), set()
     sampled = False
     for s in snaps:
         op, expect = s['op'], s['expect']
@@ -852,8 +956,14 @@ def _run_case(case, R, where):
             R.count('snapshots-deduplicated(same tree+expectation as an earlier one)')
             continue
         seen.add(key)
+        # the extra Queue configurations depend on env+meta only (tmp is never read back)
+        key2 = (tree_hash(dict(s['tree'], tmp={})), key[1])
+        extra = key2 not in seen2
+        seen2.add(key2)
+        if extra:
+            R.count('crash-states-judged-under-all-queue-configs')
         R.eval()
-        found = recover(s['tree'], expect, case, R, where)
+        found = recover(s['tree'], expect, case, R, where, all_configs=extra)
         if found:
             report(R, case, s, found, 'snapshot')
         elif inside and nlive and not sampled:
